@@ -239,9 +239,14 @@ def predFut (x : MonCtx) (m : PredSt) (e : Ev) : PredSt × List Note :=
            if m.intrQuiescent then [.prop "C08" wh (decide (m.realInvoked.length + 1 - k ≤ b))] else []
          | _, _ => []))
   | .fin f ok =>
+    -- C07 ("… is EVER started"): when `f` fails, nothing ordered after it has been started before
+    -- either (a run in the wrong direction starts the dependents first)
     ({ m1 with realEnded := m.realEnded ++ [f],
                realEndedOk := if ok then m.realEndedOk ++ [f] else m.realEndedOk,
-               realFailed := if ok then m.realFailed else m.realFailed ++ [f] }, [])
+               realFailed := if ok then m.realFailed else m.realFailed ++ [f] },
+     if ok then [] else
+       [.prop "C07" (wh ++ " (a function ordered after it was started before)")
+         (m.realInvoked.all (fun g => !reachPlus c.D f g))])
   | .q =>
     -- C04 (real): pending, no wake-up, nothing in flight = deadlock; the same observation is read
     -- against the clauses of other properties that promise a return (DESIGN section 14)
